@@ -69,6 +69,26 @@ CLAIMED = {
         'hangs"), OS-level descriptor accounting and thread interleavings are not decided.',
         'contract-based deductive verification (PyVC: exception paths, heap frames, effect traces) + AST obligations',
         'DESIGN.md 6/C14'),
+    'C16': (
+        'Deductive: the sort key of infer()/get_references() results proved equal to the documented key; lemma: the '
+        'key is injective on Name identity (path, position, name), so sorting a set of distinct Names yields one '
+        'order independent of hashing; frame obligations on all exits incl. exceptions: reference-search flow flag, '
+        'predefined names, dynamic-params depth counter (and, under C15, recursion stack / detector); AST obligations: '
+        '_analysis restores is_analysis, queries sort through sorted_definitions, budgets are all reset per query.',
+        'Trusted: builtin sorted, str injective on normalised paths; hash-independence of the INPUT order of completion '
+        'names, memoised recursion defaults and the shared budget of Name-level follow-up queries are not decided.',
+        'contract-based deductive verification (PyVC frames on exceptional exits, block contracts) + z3 lemma',
+        'DESIGN.md 6/C16'),
+    'C17': (
+        'Deductive under assumed parso tree-geometry axioms: line/column are the token position, tree names report '
+        'their own token and spelling, definition start <= name start and name end <= definition end with no '
+        'exception on the function/class branch, get_line_code returns exactly the window of lines around the name '
+        '(the very line for before=after=0), def/ref filter of get_names is the identity for '
+        'definitions=references=True.',
+        'Trusted: parso geometry axioms (listed in evidence, audited in the thorough tier), names of source modules '
+        'carry a position inside code_lines; names without tree position (ImportName/ModuleName at (1,0)) are outside '
+        'the contracts (known by-design deviation F14, not claimed).',
+        'contract-based deductive verification (PyVC) with assumed parso model', 'DESIGN.md 6/C17'),
 }
 
 NOT_APPLICABLE = {
